@@ -47,6 +47,8 @@ def make_cfg(r, seed, n_ops=None, probe_p=0.0):
     }
     if r.random() < 0.25:
         cfg["root_name"] = "a"  # names repeating the root's own component (prefix-rewrite corner)
+    if r.random() < 0.25:
+        cfg["names"] = ["a", "ab", "b"]  # names that are string prefixes of each other
     return cfg
 
 
